@@ -46,7 +46,9 @@ SUFFIXES = [("", XSD_STRING), ("@en", LANGSTRING), ("@en-GB", LANGSTRING),
 TAILS = [" .", ".", " . # c", ' . # "q" @x']
 SEPS = [" ", "\t", "  "]
 SUBJECTS = [("<http://ex.org/s>", ("iri", "http://ex.org/s")), ("_:b1", ("bnode", "_:b1")),
-            ("<http://ex.org/a#b@c_d:e>", ("iri", "http://ex.org/a#b@c_d:e"))]
+            ("<http://ex.org/a#b@c_d:e>", ("iri", "http://ex.org/a#b@c_d:e")),
+            ("_:b12", ("bnode", "_:b12")), ("<http://ex.org/caf\u00e9/\u65e5>", ("iri", "http://ex.org/caf\u00e9/\u65e5")),
+            ("_:b1x", ("bnode", "_:b1x"))]       # labels that extend the label of another subject
 PREDS = [("<http://ex.org/p>", "http://ex.org/p"), ("<http://ex.org/ns#p_1@x>", "http://ex.org/ns#p_1@x")]
 NONLIT_OBJECTS = [("<http://ex.org/o>", ("iri", "http://ex.org/o")), ("<http://ex.org/o#x@y>", ("iri", "http://ex.org/o#x@y")),
                   ("_:o1", ("bnode", "_:o1")), ("_:o-1", ("bnode", "_:o-1")), ("_:o.1", ("bnode", "_:o.1")),
@@ -365,7 +367,7 @@ def rich_literal(draw):
 
 
 RDF = "http://www.w3.org/1999/02/22-rdf-syntax-ns#"
-_IRI_TAIL = st.text(alphabet=st.sampled_from(list("abcXYZ019-._~:/?#[]@!$&'()*+,;=%")), max_size=8)
+_IRI_TAIL = st.text(alphabet=st.sampled_from(list("abcXYZ019-._~:/?#[]@!$&'()*+,;=%") + ["\u00e9", "\u65e5", "\u00fc"]), max_size=8)
 _BN = st.from_regex(r"[A-Za-z0-9_]([A-Za-z0-9_.\-]{0,5}[A-Za-z0-9_\-])?", fullmatch=True)
 
 
